@@ -33,6 +33,8 @@ func runC17(p *Program, r *Result) {
 	if occ == nil || vpn == nil {
 		return
 	}
+	r.Rule("R17.0", "the plugin name is the key string's prefix with the fixed affixes removed (recipes)", 2)
+	checkSites(p, r, recipeSites, "C17")
 
 	// ---- R17.1
 	r.Rule("R17.1", "a single process-creation site", 1)
